@@ -13,6 +13,8 @@ class StdModel:
         self.vec_types = {}     # C element type -> typedef name
         self.arr_types = {}     # (elem ctype, N) -> typedef name
         self.rit_types = {}
+        self.chr_types = set()
+        self.need_chr = False
 
     # ----- types -----
     def vec_name(self, el_ct):
@@ -41,7 +43,7 @@ class StdModel:
         if m:
             self.used.add('std::array (C array in a struct)')
             return self.arr_name(em.ctype(m.group(1)), m.group(2))
-        if re.fullmatch(r'std::(__cxx11::)?basic_string<char(, ?std::char_traits<char>, ?std::allocator<char>)?>', t) or t == 'std::string':
+        if re.fullmatch(r'std::(__cxx11::)?basic_string<.*>', t) or t == 'std::string':
             self.used.add('std::string (storage model {data,size}, capacity bound XV_STR_CAP)')
             return 'xv_str'
         m = re.fullmatch(r'__gnu_cxx::__normal_iterator<(const )?(.+?) ?\*, ?std::(vector|__cxx11::basic_string|basic_string)<.+>>', t)
@@ -206,6 +208,39 @@ class StdModel:
             return em.addr(args[0])
         if q == 'std::addressof' or q == 'std::__addressof':
             return em.addr(args[0])
+        if q.startswith('std::char_traits::') or q in ('std::copy', 'std::copy_backward'):
+            self.used.add(q)
+            self.need_chr = True
+            nm = q.split('::')[-1]
+            a = [em.rv_or_lv(x) for x in args]
+            pt = [x for x in args if em.ctype(dq(x['type'])).endswith('*')]
+            if not pt and nm not in ('eq', 'lt', 'to_int_type', 'eq_int_type'):
+                raise Unsupported(q + ' without pointer arguments')
+            S = san(em.ctype(dq(pt[0]['type']))[:-1].strip()) if pt else 'char'
+            self.chr_types.add(S)
+            if q == 'std::copy':
+                return 'xv_copy_fwd_%s(%s, %s, (unsigned long)(%s - %s))' % (S, a[2], a[0], a[1], a[0])
+            if q == 'std::copy_backward':
+                return 'xv_copy_bwd_%s(%s, (unsigned long)(%s - %s), %s)' % (S, a[0], a[1], a[0], a[2])
+            if nm == 'copy':
+                return 'xv_tr_copy_%s(%s, %s, %s)' % (S, a[0], a[1], a[2])
+            if nm == 'move':
+                return 'xv_tr_move_%s(%s, %s, %s)' % (S, a[0], a[1], a[2])
+            if nm == 'assign' and len(a) == 3:
+                return 'xv_tr_assign_%s(%s, %s, %s)' % (S, a[0], a[1], a[2])
+            if nm == 'assign' and len(a) == 2:
+                return '(%s = %s)' % (em.lv(args[0]), a[1])
+            if nm == 'find':
+                return 'xv_tr_find_%s(%s, %s, %s)' % (S, a[0], a[1], em.rv_or_lv(args[2]) if args[2].get('valueCategory') == 'prvalue' else em.lv(args[2]))
+            if nm == 'compare':
+                return 'xv_tr_compare_%s(%s, %s, %s)' % (S, a[0], a[1], a[2])
+            if nm == 'length':
+                return 'strlen(%s)' % a[0]
+            if nm == 'eq':
+                return '(%s == %s)' % (a[0], a[1])
+            if nm == 'lt':
+                return 'XV_CHR_LT(%s, %s)' % (a[0], a[1])
+            raise Unsupported(q)
         if q in ('std::fill_n', 'std::fill'):
             self.used.add(q)
             ct = em.ctype(dq(args[0]['type']))
@@ -330,4 +365,6 @@ class StdModel:
             out.append('typedef struct { %s a[%s]; } %s;' % (el, n, nm))
         for el, nm in self.rit_types.items():
             out.append('typedef struct { %s current; } %s;' % (el, nm))
+        for S in sorted(self.chr_types):
+            out.append('XV_CHR_MODEL(%s, %s)' % (S.replace('_', ' '), S))
         return '\n'.join(out)
